@@ -5,6 +5,10 @@ ROOT = os.path.dirname(os.path.dirname(os.path.abspath(__file__)))
 
 # id -> (level, technique, level text, level note, design ref)
 CLAIMED = {
+ "C11": ("exploration", "runtime monitoring: A/B oracle (rows of dst.WriteRowGroup(src) vs src.Rows() read beforehand) with independent decoding of the produced file, destination-setting checks, and hook counters proving which fast path ran",
+         "Held on every explored (source, source config, destination config): sources = file row group, buffer, row-range view, MultiRowGroup, merged (overlapping and not), dedup wrapper, converted, and a foreign RowGroup whose Rows() reverses the rows; destinations = same config or one setting changed (codec, page version, default encoding, page size, MaxRowsPerRowGroup, bloom filters). The file's rows (library reader and specreader) equal src.Rows(), the file is well-formed, and it honours the destination codec/version/encoding/bloom/row-group size; evidence counts verbatim-copy, column re-encode and row-path executions from the library's own counters. Sampling: exploration.",
+         "Path counters and the row-range constructor are reached through verif-tagged accessors (verif_hooks_on.go). Columns whose struct tag pins a codec/encoding are exempt from the corresponding destination-default check.",
+         "DESIGN.md §4 C11"),
  "C14": ("fault_enumeration", "runtime fault injection at the I/O boundary: failing sinks at enumerated byte offsets, every strict prefix, failing io.ReaderAt at enumerated call indexes, with error-must-surface / rows-equal oracles",
          "For every enumerated fault point: (a) a sink failing at byte offset k (hard error, short write with error, one transient failure) makes some Write/Flush/Close return an error without panicking, over 8 writer scenarios (default, unbuffered, file- and chunk-backed page buffers, deferred bloom filters, SortingWriter, concurrent row groups, WriteRowGroup copy path); all offsets are enumerated for files <= 4 KiB, call boundaries +-1 plus PRNG offsets otherwise; (b) every strict prefix (all lengths <= 4 KiB, structural boundaries +-1 otherwise) is rejected by OpenFile or by the full read; (c) a ReadAt fault (error / short+error / early EOF) at each call index of open+full read yields an error or exactly the clean rows.",
          "Faults respect the io.Writer/io.ReaderAt contracts. Values never contain PAR1/PARE. Syscall-level (strace) injection on real files (ReadFrom/copy_file_range paths) is not exercised.",
